@@ -268,12 +268,13 @@ _S_Q = {q: st.sampled_from(v) for q, v in _NAMED.items()}
 _S_KIND = st.sampled_from(['named', 'named', 'named', 'named', 'seed', 'seed', 'SI'])
 _QS = ('length', 'mass', 'time', 'energy', 'charge')
 _plan_on = st.sampled_from([False, False, True, False])
+_plan_on_half = st.sampled_from([False, True])
 
 
 @st.composite
-def unit_plans(draw, share=None):
-    """None (three quarters of the cases) or a plan; always the same number of draws"""
-    on, kind, sub, seed, pre = draw(_plan_on), draw(_S_KIND), draw(_S_SUBSET), draw(_seed), draw(_bool)
+def unit_plans(draw, half=False):
+    """None (three quarters of the cases; half of them with half=True) or a plan; always the same number of draws"""
+    on, kind, sub, seed, pre = draw(_plan_on_half if half else _plan_on), draw(_S_KIND), draw(_S_SUBSET), draw(_seed), draw(_bool)
     picks = {q: draw(_S_Q[q]) for q in _QS}
     if not on:
         return None
@@ -289,6 +290,7 @@ def unit_plans(draw, share=None):
 
 
 S_PLAN = unit_plans()
+S_PLAN_HALF = unit_plans(True)       # (PN cases: the integer-typed forms, 40 % of them, cancel the plan)
 
 
 def apply_units(uc, cfg):
@@ -336,7 +338,7 @@ _pq = st.integers(-2, 2)
 # form in which coordinates / positions / vectors are handed to the conversion methods: 'plain' = float ndarray or list
 # (field 'aslist'), read-only ndarray, non-contiguous view, nested tuple, numpy scalars for single values, integer-typed
 # (whole-number fractional and plotting coordinates, whole-number crystal vectors)
-_cform = st.sampled_from(['plain', 'plain', 'plain', 'ro', 'strided', 'tuple', 'npscalar', 'int', 'narrow', 'narrow'])
+_cform = st.sampled_from(['plain', 'plain', 'plain', 'ro', 'strided', 'tuple', 'npscalar', 'int'])
 _narrow = st.sampled_from(NARROW)
 # Cartesian positions / the plotting axis a relative 10^-k OUT of the fault plane (None: exactly in plane as computed):
 # far inside the tolerances of the in-plane tests (1e-6 and 1e-8 relative), so the answers move by no more than that
@@ -357,7 +359,8 @@ def dyadic_surface(s):
 
 
 @st.composite
-def coords_cases(draw):
+def coords_cases(draw, narrow=False):
+    """narrow=True (clause coords_dtypes): every case hands its arrays over in a storage dtype"""
     s = draw(surfaces())
     qk = draw(_qkind)
     q = draw(queries()) if qk == 'plain' else draw(_special(s['n1'], s['n2']))
@@ -366,10 +369,14 @@ def coords_cases(draw):
     q8 = [[draw(_eighth), draw(_eighth)] for _ in q]
     off = {'pos': draw(_off_k), 'xvect': draw(_off_k), 'sign': draw(_sign)}
     plan = draw(S_PLAN)
+    if narrow:
+        form = 'narrow'
     if form == 'int':
+        plan = None               # (whole numbers of working units exist only in the default units)
         q = [[float(round(a)), float(round(b))] for a, b in q]
         s = dict(s, lk=int_scale(s['lk']))            # whole-number plotting coordinates / Cartesian vectors
     elif form == 'narrow':
+        plan = None
         # storage dtypes: fractional coordinates in eighths (|q| <= 3), dyadic Cartesian vectors, a whole-number length scale
         form = nd
         q = [[a / 8.0, b / 8.0] for a, b in q8]
@@ -499,10 +506,10 @@ def pn_systems(draw, nmax=401, real_ok=True):
 # need whole numbers: 'xint' = grid x0 + i*dx of whole angstroms, 'round' = disregistry rounded to whole angstroms (a
 # staircase from 0 to about b, the kind of guess one types by hand).
 _aform = st.sampled_from(['arr', 'arr', 'arr', 'list', 'tuple', 'ro', 'strided', 'int', 'int', 'intlist'])
-# storage dtypes of x / the disregistry (a sixth of the profiles: both in a drawn narrow dtype, or one of them): whole-angstrom
+# storage dtypes of x / the disregistry (clause pn_dtypes only: both in a drawn narrow dtype, or one of them): whole-angstrom
 # grids and staircase disregistries, as for the integer forms
 _nform = st.sampled_from(NARROW)
-_nwhich = st.sampled_from([None] * 10 + ['both', 'both', 'x', 'd'])
+_nwhich = st.sampled_from(['both', 'both', 'both', 'x', 'd', 'd', None])
 # disregistry kinds: 'arctan' (plus perturbations) | 'decades': rows growing geometrically over 9 decades (each density row
 # is judged relative to its own magnitude)
 _pkind = st.sampled_from(['arctan'] * 7 + ['decades'])
@@ -512,11 +519,13 @@ _dy_k = st.sampled_from([None, None, None, 11, 12, 13, 15])
 
 
 @st.composite
-def pn_profiles(draw, nmin=7, nmax=401):
+def pn_profiles(draw, nmin=7, nmax=401, narrow=False):
     n = draw(_npn)
     n = max(nmin, min(nmax, n))
     fx, fd = draw(_aform), draw(_aform)
     nw, nf1, nf2 = draw(_nwhich), draw(_nform), draw(_nform)
+    if not narrow:
+        nw = None
     if nw in ('both', 'x'):
         fx = nf1
     if nw in ('both', 'd'):
@@ -530,6 +539,11 @@ def pn_profiles(draw, nmin=7, nmax=401):
             'pert': [[draw(_amp), draw(st.integers(1, 4))], [draw(_amp), draw(st.integers(1, 4))]],
             'ramp': [draw(_amp), draw(_amp)], 'fx': fx, 'fd': fd, 'xint': xint,
             'round': fd in ('int', 'intlist') or is_narrow(fd), 'kind': draw(_pkind), 'dy': draw(_dy_k)}
+
+
+@functools.lru_cache(maxsize=None)
+def _profiles(nmax, narrow=False):
+    return pn_profiles(nmax=nmax, narrow=narrow)
 
 
 @st.composite
@@ -555,21 +569,23 @@ def _uses_int(pr):
 
 
 def fix_int_scale(c):
-    """whole-angstrom grids / disregistries handed over integer-typed need a length scale 10^k >= 1"""
+    """whole-angstrom grids / disregistries handed over integer-typed need a length scale 10^k >= 1 (and the default
+    working units: no unit plan)"""
     h = c.get('hist')
     steps = h if isinstance(h, list) else ([h] if h else [])
     if any(_uses_int(p) for p in [c['prof']] + [t['prof'] for t in steps]):
         c['sys']['lk'] = int_scale(c['sys']['lk'])
+        c['units'] = None
     return c
 
 
 @st.composite
-def pn_cases(draw, nmax=401):
-    return fix_int_scale({'sys': draw(pn_systems()), 'prof': draw(pn_profiles(nmax=nmax)), 'set': draw(pn_settings()),
+def pn_cases(draw, nmax=401, narrow=False):
+    return fix_int_scale({'sys': draw(pn_systems()), 'prof': draw(_profiles(nmax, narrow)), 'set': draw(pn_settings()),
                           'shiftc': [draw(gens.nice(-10.0, 10.0, 3)), draw(gens.nice(-10.0, 10.0, 3))],
                           's': draw(st.sampled_from([2.0, -1.0, 0.5, 3.0])),
                           # lists / tuples go to the energy methods as ARGUMENTS in these cases only (everywhere through the setters)
-                          'listargs': draw(st.integers(0, 4)) == 0, 'units': draw(S_PLAN)})
+                          'listargs': draw(st.integers(0, 4)) == 0, 'units': draw(S_PLAN_HALF)})
 
 
 # ---- object history of an SDVPN: further evaluations on the same object
@@ -583,28 +599,24 @@ _chg_keys = st.lists(st.sampled_from(['tau', 'alpha', 'beta', 'cutoff', 'fullstr
 _nsteps = st.sampled_from([1, 2, 2, 3, 3])
 
 
-@functools.lru_cache(maxsize=None)
-def _profiles(nmax):
-    return pn_profiles(nmax=nmax)
-
-
 @st.composite
-def pn_steps(draw, nmax=401):
+def pn_steps(draw, nmax=401, narrow=False):
     steps = []
     for _ in range(draw(_nsteps)):
         chg = None
         if draw(st.integers(0, 2)) == 0:
             full = draw(pn_settings())
             chg = {k: full[k] for k in draw(_chg_keys)}
-        steps.append({'grid': draw(_grid_kind), 'prof': draw(_profiles(nmax)), 'via': draw(_via), 'chg': chg})
+        steps.append({'grid': draw(_grid_kind), 'prof': draw(_profiles(nmax, narrow)), 'via': draw(_via), 'chg': chg})
     return steps
 
 
 @st.composite
-def pn_hist_cases(draw):
-    """pn_cases plus, for half of them, 1-3 further evaluations on the same SDVPN object"""
-    c = draw(pn_cases())
-    c['hist'] = draw(pn_steps(200)) if draw(_bool) else []
+def pn_hist_cases(draw, narrow=False):
+    """pn_cases plus, for half of them, 1-3 further evaluations on the same SDVPN object (narrow=True, clause pn_dtypes: x
+    and / or the disregistry of most profiles in a storage dtype)"""
+    c = draw(pn_cases(nmax=120, narrow=True)) if narrow else draw(pn_cases())
+    c['hist'] = draw(pn_steps(120 if narrow else 200, narrow)) if draw(_bool) else []
     return fix_int_scale(c)
 
 
@@ -681,7 +693,7 @@ def halfwidth_cases(draw):
             'cdiffelastic': draw(_bool), 'lk': draw(_lk), 'ej': draw(_ej)}
 
 
-_xmode = st.sampled_from(['x', 'x', 'xmax+xstep', 'xmax+xnum', 'xstep+xnum', 'all3'])
+_xmode = st.sampled_from(['x', 'xmax+xstep', 'xmax+xnum', 'xstep+xnum', 'all3'])
 _xform = st.sampled_from(['arr', 'arr', 'arr', 'list', 'tuple', 'ro', 'strided', 'int', 'intlist', 'narrow', 'narrow'])
 
 
@@ -703,15 +715,19 @@ def arctan_cases(draw):
         c['xform'] = draw(_nform)
     else:
         draw(_nform)
+    k16, wmul = draw(st.integers(1, 16)), draw(st.sampled_from([1.0, 4.0, 6.0, 10.0]))
+    if c['xmode'] != 'x':
+        c['xform'] = 'arr'
     if c['xform'] in ('int', 'intlist') or is_narrow(c['xform']):
         whole = c['xform'] in ('int', 'intlist', 'nd:i1', 'nd:i2', 'nd:u1', 'nd:u2', 'nd:>i4')
-        c['step'] = float(draw(st.integers(1, 16))) / (1.0 if whole else 8.0)
+        c['step'] = float(k16) / (1.0 if whole else 8.0)
+        c['w'] = c['w'] if wmul == 1.0 else c['step'] * wmul        # (a half-width of several steps: the derivative is judged too)
         c['x0'] = float(round(c['x0']))
         if c['xform'] in ('nd:u1', 'nd:u2'):
             c['x0'] = abs(c['x0'])
         c['lk'] = max(0, int_scale(c['lk']))
     # many decades in one call (mode 'x' only): x = center + s * halfwidth * 10^e, e from -6 to +6, both signs
-    c['xdec'] = draw(_seed) if draw(st.integers(0, 5)) == 0 else None
+    c['xdec'] = draw(_seed) if (draw(st.integers(0, 5)) == 0 and c['xmode'] == 'x') else None
     # xmax a relative 10^-k off xstep (xnum - 1) / 2 (k = 7..12: far inside the tolerance of the compatibility test)
     c['xnear'] = draw(st.sampled_from([None, None, None, 7, 8, 10, 12]))
     c['xnear_sign'] = draw(_sign)
@@ -721,7 +737,7 @@ def arctan_cases(draw):
 
 # ----------------------------------------------------------------------------- many decades in one call (clause decades)
 _mant = gens.nice(1.0, 9.99, 3)
-_dec_lo = st.integers(-9, -7)
+_dec_lo = st.integers(-9, -8)
 _dec_hi = st.integers(0, 2)
 _dec_mid = st.integers(-7, 0)
 _nrows = st.integers(8, 12)
